@@ -197,7 +197,11 @@ func (cr *c05cRun) judge(c *g.Case, doc map[string]any, out c05cOut, d, class st
 	ao := g.AuditOpt{Env: c.Env, Canon: toCamelCase}
 	if out.err != nil {
 		if class == "valid" {
-			m.Violate("C05:conf:valid-rejected:"+c05cBlame(c, doc), d, "a document that satisfies every declared constraint was rejected: %v", out.err)
+			sig := "C05:conf:valid-rejected:" + c05cBlame(c, doc)
+			if strings.Contains(sig, "embedded+optional") {
+				sig = "C05:conf:optional-embedded-field-not-fed"
+			}
+			m.Violate(sig, d, "a document that satisfies every declared constraint was rejected: %v", out.err)
 			return true
 		}
 		if ft != nil {
@@ -233,7 +237,8 @@ func (cr *c05cRun) judge(c *g.Case, doc map[string]any, out c05cOut, d, class st
 }
 
 // same compares the outcome for a rewritten spelling of the document with the reference outcome.
-func (cr *c05cRun) same(ref, alt c05cOut, d, sig, what string) bool {
+func (cr *c05cRun) same(ref, alt c05cOut, d, sig, what string, suffix ...string) bool {
+	sfx := strings.Join(suffix, "")
 	if alt.pv != nil {
 		cr.m.Violate(c05cPanicSig(alt), d, "%s: panic: %v", what, alt.pv)
 		return true
@@ -242,11 +247,11 @@ func (cr *c05cRun) same(ref, alt c05cOut, d, sig, what string) bool {
 		return false
 	}
 	if (ref.err == nil) != (alt.err == nil) {
-		cr.m.Violate(sig+":errorness", d, "%s: reference spelling -> %s ; this spelling -> %s", what, ref, alt)
+		cr.m.Violate(sig+":errorness"+sfx, d, "%s: reference spelling -> %s ; this spelling -> %s", what, ref, alt)
 		return true
 	}
 	if ref.err == nil && !g.Equal(ref.res.Elem(), alt.res.Elem()) {
-		cr.m.Violate(sig+":value", d, "%s: reference spelling -> %s ; this spelling -> %s", what, g.Show(ref.res), g.Show(alt.res))
+		cr.m.Violate(sig+":value"+sfx, d, "%s: reference spelling -> %s ; this spelling -> %s", what, g.Show(ref.res), g.Show(alt.res))
 		return true
 	}
 	cr.m.Count("same."+strings.TrimPrefix(sig, "C05:"), 1)
@@ -300,7 +305,7 @@ func c05cScenario(m *vk.M, idx int) {
 			}
 			if !bad && g.HasNull(c.Doc) {
 				yo, dyy := cr.call(true, c.Doc, "class=fault:"+ft.Kind)
-				bad = cr.same(fo, yo, dyy, "C05:json-yaml-diverge", "fault "+ft.Kind+" as YAML") // null: same signature family as in lib/mapping
+				bad = cr.same(fo, yo, dyy, "C05:json-yaml-diverge", "fault "+ft.Kind+" as YAML", ":null") // null: same signature family as in lib/mapping
 			}
 			if m.WantSample() && idx%199 == 2 && k == 0 {
 				m.Sample(map[string]any{"class": "fault", "fault": ft.Desc, "shape": shape.String(), "doc": string(g.JSON(c.Doc)), "observed": fo.String()})
@@ -331,7 +336,7 @@ func c05cScenario(m *vk.M, idx int) {
 func TestVerifC05Conf(t *testing.T) {
 	m := vk.New(t, "C05", "conf.LoadFromJsonBytes/LoadFromYamlBytes on seeded shapes with camelCase keys: valid documents accepted exactly (JSON == YAML), the same document with struct keys in snake_case / flipped initial case / a per-key mix loads into the same struct, single faults rejected in every spelling, adversarial documents error-or-exact without panics; non-trivial = shape saw both an acceptance and a rejection")
 	defer m.Done()
-	n := vk.N(700, 40000)
+	n := vk.N(1200, 40000)
 	for idx := 1; idx <= n; idx++ {
 		if !m.Only(idx) {
 			continue
